@@ -93,7 +93,7 @@ def hand_back(ctx, rid="R3"):
             ctx.decide(o, ok is not None, ok or "", "the Path produced by %s at %s is dropped: its nodes vanish from the schedule"
                        % (c.callee.split("::")[-1], c.line()), loc=c.line())
     o = ctx.ob("%s.sites" % rid, "T10", SCHEDULE, "path-producing call sites in impl Schedule are found (floor 6)")
-    ctx.decide(o, total >= 6, "%d sites" % total, "only %d sites found" % total)
+    ctx.floor(o, total, 6, "path-producing call sites")
 
 
 def is_len_minus_one(fd, c, op):
